@@ -88,6 +88,7 @@ fn replay(kind: &str, iface: &str, msg_i: usize, plen: usize, sc: Scripts, max_r
     let maxb = bufs.iter().cloned().max().unwrap_or(1).max(1);
     let mut d = 0usize;
     let mut eofs = 0;
+    let eof_goal = 3; // keep reading after end-of-stream: it must stay at 0
     let mut reads = 0usize;
     let mut buf = vec![0u8; maxb];
     let mut check = |d: &mut usize, n: usize, buf: &[u8]| -> bool {
@@ -98,7 +99,7 @@ fn replay(kind: &str, iface: &str, msg_i: usize, plen: usize, sc: Scripts, max_r
     if iface == "sync" {
         let mut rd = req.into_read();
         let mut i = 0usize;
-        while eofs < 2 && reads < max_reads {
+        while eofs < eof_goal && reads < max_reads {
             let mut b = bufs[i % bufs.len()];
             if i >= bufs.len() && b == 0 {
                 b = 1;
@@ -127,7 +128,7 @@ fn replay(kind: &str, iface: &str, msg_i: usize, plen: usize, sc: Scripts, max_r
         let push2 = push.clone();
         let fut = async {
             let mut i = 0usize;
-            while eofs < 2 && reads < max_reads {
+            while eofs < eof_goal && reads < max_reads {
                 let mut b = bufs[i % bufs.len()];
                 if i >= bufs.len() && b == 0 {
                     b = 1;
@@ -286,6 +287,33 @@ pub fn run(a: &Args) {
         let cid = format!("prand-{}", k);
         emit_run(&mut sink, cid, kind, iface, k, plen, sc, 1, "random buffers and schedule");
         runs += 1;
+    }
+    // buffer sizes chosen around the encoded header length: exactly the (remaining) header, one more, one less,
+    // crossed with a payload that first answers not-ready / Interrupted / a short piece
+    for k in 0..12usize {
+        let hlen = sample_message(k).to_bytes().len();
+        for kind in ["empty", "sync", "async"] {
+            for iface in ["sync", "async"] {
+                for (bi, first) in [vec![hlen], vec![hlen + 1], vec![hlen - 1, 1], vec![hlen - 1, 2], vec![7, hlen - 7], vec![7, hlen - 6], vec![hlen + 4096], vec![1, hlen - 1, 1], vec![hlen, 1], vec![hlen / 2, hlen - hlen / 2 + 1]].iter().enumerate() {
+                    for srcv in 0..4usize {
+                        let mut bufs = first.clone();
+                        bufs.extend_from_slice(&[3, 4096, 1]);
+                        let src = match (srcv, kind) {
+                            (0, _) => vec![],
+                            (1, "async") => vec![Step::Pending(false), Step::Deliver(2)],
+                            (1, "sync") => vec![Step::Intr, Step::Deliver(2)],
+                            (2, "async") => vec![Step::Pending(true), Step::Pending(false), Step::Deliver(1)],
+                            (2, "sync") => vec![Step::Intr, Step::Intr, Step::Deliver(1)],
+                            (3, _) => vec![Step::Deliver(1), Step::Deliver(5000)],
+                            _ => continue,
+                        };
+                        let sc = Scripts { bufs, src, last_chunk: 700 };
+                        emit_run(&mut sink, format!("phdr-{}-{}-{}-{}-{}", k, kind, iface, bi, srcv), kind, iface, k, [0usize, 1, 10, 5000][(k + bi) % 4], sc, 1, "buffers around the header length");
+                        runs += 1;
+                    }
+                }
+            }
+        }
     }
     let events = sink.events;
     sink.finish();
